@@ -293,6 +293,42 @@ def execute(program):
     if not simrun.close(outB[mask], outC[mask], **TOL_SAME):
         w.violate("param_paths_equal", f"data_set differs from set() by {simrun.maxdiff(outB[mask], outC[mask]):.3e}", nidx, {"paths": "data_set_vs_set"})
         return res()
+    # ---- (C') the same values as *arrays*: one data_set call per trainable on the union of its groups, one value per row
+    #      ("If it is jnp.ndarray then it must be of shape (len(num_compartments))")
+    ps_arr, n_arr = None, 0
+    try:
+        with quiet():
+            for t, v in zip(ref.trainables, vals):
+                per_row = {}
+                for g, x in zip(t["groups"], v):
+                    for r_ in g:
+                        per_row[r_] = float(x)
+                rows_ = sorted(per_row)
+                if t["key"] in ref.cols:
+                    if any(isnan(ref.cols[t["key"]][r_]) for r_ in rows_):
+                        ps_arr = None
+                        break
+                    view_ = base.select(nodes=rows_)
+                else:
+                    view_ = base.select(edges=rows_)
+                val_ = jnp.asarray([per_row[r_] for r_ in rows_]) if len(rows_) > 1 else per_row[rows_[0]]
+                n_arr += len(rows_) > 1
+                ps_arr = view_.data_set(t["key"], val_, ps_arr)
+        if ps_arr is not None and n_arr:
+            outC3 = integ(w, base, program, param_state=ps_arr)
+            w.bump("oracle_data_set_arrays")
+            if not simrun.close(outB[mask], outC3[mask], **TOL_SAME):
+                w.violate("param_paths_equal", f"data_set with one array of per-row values differs from set() by {simrun.maxdiff(outB[mask], outC3[mask]):.3e}", nidx,
+                          {"paths": "data_set_array_vs_set"})
+                return res()
+    except HarnessError:
+        raise
+    except Exception as e:  # noqa: BLE001
+        if exc_in_harness(e):
+            raise HarnessError(f"{type(e).__name__}: {e}") from e
+        w.violate("param_paths_equal", f"data_set with an array of per-row values raised {exc_text(e)} while set() with the same array simulated", nidx,
+                  {"paths": "data_set_array_vs_set"})
+        return res()
     w.chain.add("paths", {"out": snap.arrays_digest(outA), "vals": vals})
     # ---- data_set is functional: integrate must not modify the caller's param_state, and feeding the same object
     #      twice gives the same result.  Probed on a synapse parameter of an edge that is not the first of its type.
